@@ -612,7 +612,24 @@ def gen_value(rng, opts, depth, budget):
         return {"k": "path", "v": rng.pick(["a/b.txt", "/abs/x", ".", "rel", "a b/é"])}
     if k == "numseq":
         n = rng.pick([1, 2, 3, 5])
-        mode = rng.pick(["int", "float", "mixed", "bool", "np"])
+        mode = rng.pick(["int", "float", "mixed", "bool", "np", "zero_d"])
+        if mode == "zero_d":
+            # 0-d arrays / 0-d tensors next to plain numbers: numpy's dtype discovery treats them as
+            # scalars, the serializer must not (they are arrays and must come back as arrays)
+            items = []
+            for _ in range(n):
+                c = rng.pick(["nd", "nd", "tensor", "num"])
+                if c == "nd":
+                    items.append({"k": "nd", "dtype": rng.pick(["uint8", "float32", "int16", "bool",
+                                                                "float64"]), "shape": [],
+                                  "fill": rng.randrange(1000)})
+                elif c == "tensor":
+                    items.append({"k": "tensor", "dtype": rng.pick(["float32", "int64"]), "shape": [],
+                                  "fill": rng.randrange(1000), "grad": False})
+                else:
+                    items.append({"k": rng.pick(["int", "float"]), "v": rng.pick([0, 1, 5])} if rng.chance(
+                        0.5) else {"k": "float", "v": "0x1.8p+1"})
+            return {"k": rng.pick(["list", "tuple"]), "items": items}
         items = []
         for _ in range(n):
             if mode == "int":
